@@ -18,7 +18,7 @@ pub fn run_keyid(sc: &Value) -> Value {
     let default = algs.as_ref().map(|a| a == &vec!["sha256".to_string(), "sha512".to_string()]).unwrap_or(false);
     let r = match sc["key"].as_str().unwrap() {
         "ed25519" => PublicKey::from_ed25519_with_keyid_hash_algorithms(value, algs),
-        "ecdsa" if default => { let mut p = tlv(6, &[0x2a,0x86,0x48,0xce,0x3d,0x02,0x01]); p.extend(tlv(6, &[0x2a,0x86,0x48,0xce,0x3d,0x03,0x01,0x07])); PublicKey::from_spki(&spki(&p, &value), SignatureScheme::EcdsaP256Sha256) }
+        "ecdsa" => PublicKey::from_ecdsa_with_keyid_hash_algorithms(value, algs),
         "rsa" if default => { let mut p = tlv(6, &[0x2a,0x86,0x48,0x86,0xf7,0x0d,0x01,0x01,0x01]); p.extend([5u8, 0]); PublicKey::from_spki(&spki(&p, &value), SignatureScheme::RsaSsaPssSha256) }
         _ => return json!({"outcome": "not-constructible-through-public-api"}),
     };
@@ -71,4 +71,13 @@ pub fn run_keyjson(sc: &Value) -> Value {
              serde_json::from_value::<LayoutMetadata>(doc.clone()).map(|l| describe_layout(&l)).unwrap_or_else(|_| "err".into())]
     };
     json!({"outcome": outs.join("/")})
+}
+
+/// C12: the RSA public key derived from a PKCS#8 document (through the guarded hook)
+pub fn run_rsa_pkcs8(sc: &Value) -> Value {
+    let doc = bytes(&sc["doc"]);
+    match in_toto::verif_hooks::rsa_public_from_pkcs8(&doc) {
+        Ok(out) => json!({"outcome": format!("der:{}", out.iter().map(|b| format!("{:02x}", b)).collect::<String>())}),
+        Err(e) => json!({"outcome": "err", "message": e}),
+    }
 }
